@@ -42,10 +42,31 @@ def build(tier, work, builder):
     src = X.Source("src/xmlwriter.cpp")
     T.MSG.clear()
     fl = []
-    for name, rx in FUNCS:
+    # the REAL class XMLWriter (xmlwriter.h): its data members are the writer's state, so a member a change adds comes along
+    hs = X.Source("include/utap/xmlwriter.h")
+    cls = X.braced(hs, "class XMLWriter", r"^class XMLWriter\b")
+    # result type of every member function (for `auto x = member(...)`, rule L15)
+    rtypes = {m.group(2): m.group(1) for m in re.finditer(r"^\s*(?:\[\[nodiscard\]\]\s*)?((?:const )?[\w:]+(?:<[^<>]*>)?[\*&]?)\s+(\w+)\(", cls.text, re.M)}
+    # member functions of xmlwriter.cpp beside the listed ones (a helper a change splits off): sliced with the same lowering
+    NOT_KERNEL = {"XMLWriter", "startDocument", "endDocument", "declaration", "getChanPriority", "system_instantiation", "project"}
+    listed = {n.split("::")[1] for n, _ in FUNCS}
+    extra = []
+    for m in re.finditer(r"^[\w:<>\*&\[\] ]+?\bXMLWriter::(\w+)\(", src.text, re.M):
+        if src.mask[m.start()] == "c" and m.group(1) not in listed and m.group(1) not in NOT_KERNEL and m.group(1) not in [e[0].split("::")[1] for e in extra]:
+            extra.append(("XMLWriter::" + m.group(1), r"^[\w:<>\*&\[\] ]+?\bXMLWriter::%s\(" % re.escape(m.group(1))))
+    for name, rx in extra + FUNCS:
         sl = X.function(src, name, rx)
+        def typed(mm):
+            ty = rtypes.get(mm.group(3))
+            return mm.group(0) if ty is None else "%s%s %s = %s(" % (mm.group(1) or "", ty, mm.group(2), mm.group(3))
+        new, n_auto = re.subn(r"\b(const )?auto (\w+) = (\w+)\(", typed, sl.text)
+        if new != sl.text:
+            sl.rules["L15:auto x = member(...) -> the member's declared result type"] = n_auto
+            sl.text = new
         T.lower_literals(sl)
         sl.sub("L2:constexpr->const", r"\bconstexpr\b", "const")
+        sl.sub("L29:const T& local = accessor result -> const T copy (the stand-in accessors return by value and CBMC does not extend a temporary's lifetime; nothing in these functions modifies the referee)",
+               r"\bconst (symbol_t|type_t|expression_t|std::string|string|location_t\*|frame_t)& (\w+) = ", r"const \1 \2 = ")
         sl.sub("glue:top-level const of a by-value parameter (CBMC matches declaration and definition literally)",
                r"(?<=[(,])\s*const (int|double|bool|int32_t|uint32_t|size_t) (\w+)(?=\s*[,)])", r" \1 \2", count=0)
         sl.sub("L9:throw->ghost flag", r"throw XMLWriterError\(verif_lit\(\d+, \"[^\"]*\"\)\);", "VERIF_THROW_VOID;")
@@ -86,8 +107,6 @@ def build(tier, work, builder):
     write(work, "lit_ids.h", "\n".join(out) + "\n")
     slices = fl
     # the REAL class XMLWriter (xmlwriter.h): its data members are the writer's state, so a member a change adds comes along
-    hs = X.Source("include/utap/xmlwriter.h")
-    cls = X.braced(hs, "class XMLWriter", r"^class XMLWriter\b")
     cls.sub("L17:std::map<int,int>->verif_intmap", r"std::map<int,\s*int>", "std::verif_intmap")
     cls.sub("glue:constructor/destructor declarations dropped (the harness owns one static writer)", r"^\s*(virtual\s+)?~?XMLWriter\([^;]*\);[^\n]*\n", "")
     cls.sub("L4:in-class member initialiser dropped (the harness sets every scalar member to an arbitrary value)",
